@@ -5,7 +5,10 @@
    committee change/delete handlers (proposal_handler.go), and of what the
    committee router reaches: x/params handleParameterChangeProposal ->
    Subspace.Update (load current, amino-decode the proposed value onto it,
-   validate, store).  Definitions only. *)
+   validate, store), x/upgrade ScheduleUpgrade and the x/community proposal
+   handler (NewCommunityPoolProposalHandler: four proposal types, their
+   ValidateBasic exactly, the keeper calls behind them as a recorded outcome).
+   Definitions only. *)
 From Kava Require Import Base.Prelude Base.Dec Model.Json.
 Local Open Scope string_scope.
 Local Open Scope list_scope.
@@ -29,17 +32,41 @@ Definition pref_eqb (a b : pref) : bool :=
 Record subreq := mkReq { sr_key : string; sr_val : jstr; sr_attrs : list string }.
 Record allowed_change := mkAC { ac_param : pref; ac_single : list string; ac_multi : list subreq }.
 
+(* the seven permission types of types/permissions.go *)
 Inductive permission :=
 | PermGod
 | PermText
 | PermParams (acs : list allowed_change)
-| PermOther.              (* SoftwareUpgradePermission: allows software-upgrade proposals only *)
+| PermUpgrade             (* SoftwareUpgradePermission *)
+| PermCdpRepay            (* CommunityCDPRepayDebtPermission *)
+| PermCdpWithdraw         (* CommunityCDPWithdrawCollateralPermission *)
+| PermLendWithdraw.       (* CommunityPoolLendWithdrawPermission *)
+Notation PermOther := PermUpgrade (only parsing).
 
+(* sdk.Coins / sdk.Coin as written in a proposal: denominations are plain strings *)
+Definition coin : Type := (string * Z)%type.
+
+(* The contents the committee router can be asked to handle.  The [ok] component
+   of the four x/community proposals is a ghost: what the keeper calls behind the
+   handler (x/distribution, x/hard, x/cdp - not modelled here) answer on the
+   state in which the handler is run next; the driver records it from the
+   implementation ([OOracle] refreshes it on stored proposals). *)
 Inductive content :=
 | CText
 | CParam (changes : list (pref * option json))   (* value None: text that is not JSON *)
 | CUpgrade (h : Z)        (* SoftwareUpgradeProposal with plan height h *)
-| CCommitteeChange.       (* routed to "committee", which the committee router does not have *)
+| CCommitteeChange        (* routed to "committee", which the committee router does not have *)
+| CCancelUpgrade          (* CancelSoftwareUpgradeProposal: same route and handler as CUpgrade *)
+| CPoolSpend              (* distribution CommunityPoolSpendProposal: a registered proposal type without a route *)
+| CLendDeposit (amt : list coin) (ok : bool)          (* CommunityPoolLendDepositProposal *)
+| CLendWithdraw (amt : list coin) (ok : bool)         (* CommunityPoolLendWithdrawProposal *)
+| CCdpRepay (ctype : string) (pay : coin) (ok : bool)       (* CommunityCDPRepayDebtProposal *)
+| CCdpWithdraw (ctype : string) (coll : coin) (ok : bool)   (* CommunityCDPWithdrawCollateralProposal *)
+| CBadMeta (c : content). (* c with a title or description that govv1beta1.ValidateAbstract refuses *)
+
+(* the Go value behind a content: title and description play no part in type switches *)
+Fixpoint body (c : content) : content :=
+  match c with CBadMeta c' => body c' | _ => c end.
 
 Definition str_in (k : string) (l : list string) : bool := existsb (String.eqb k) l.
 
@@ -169,13 +196,62 @@ Fixpoint all_changes_allowed (acs : list allowed_change) (ps : list json)
       end
   end.
 
+(* the Allows methods, one per permission type: a type assertion on the proposal *)
 Definition perm_allows (pm : permission) (ps : list json) (c : content) : option bool :=
-  match pm, c with
-  | PermGod, _ => Some true
-  | PermText, CText => Some true
-  | PermParams acs, CParam chs => all_changes_allowed acs ps chs
-  | PermOther, CUpgrade _ => Some true
-  | _, _ => Some false
+  match pm with
+  | PermGod => Some true
+  | PermText => Some (match body c with CText => true | _ => false end)
+  | PermUpgrade => Some (match body c with CUpgrade _ => true | _ => false end)
+  | PermCdpRepay => Some (match body c with CCdpRepay _ _ _ => true | _ => false end)
+  | PermCdpWithdraw => Some (match body c with CCdpWithdraw _ _ _ => true | _ => false end)
+  | PermLendWithdraw => Some (match body c with CLendWithdraw _ _ => true | _ => false end)
+  | PermParams acs =>
+      match body c with
+      | CParam chs => all_changes_allowed acs ps chs
+      | _ => Some false
+      end
+  end.
+
+(* the two type tables the permission matrix is stated over *)
+Inductive ptype := PTGod | PTText | PTParams | PTUpgrade | PTCdpRepay | PTCdpWithdraw | PTLendWithdraw.
+Inductive ctype := TText | TParam | TUpgrade | TCommitteeChange | TLendDeposit | TLendWithdraw | TCdpRepay | TCdpWithdraw
+                 | TCancelUpgrade | TPoolSpend.
+
+Definition ptype_of (pm : permission) : ptype :=
+  match pm with
+  | PermGod => PTGod | PermText => PTText | PermParams _ => PTParams | PermUpgrade => PTUpgrade
+  | PermCdpRepay => PTCdpRepay | PermCdpWithdraw => PTCdpWithdraw | PermLendWithdraw => PTLendWithdraw
+  end.
+
+Definition ctype_of (c : content) : ctype :=
+  match body c with
+  | CText => TText | CParam _ => TParam | CUpgrade _ => TUpgrade | CCommitteeChange => TCommitteeChange
+  | CCancelUpgrade => TCancelUpgrade | CPoolSpend => TPoolSpend
+  | CLendDeposit _ _ => TLendDeposit | CLendWithdraw _ _ => TLendWithdraw
+  | CCdpRepay _ _ _ => TCdpRepay | CCdpWithdraw _ _ _ => TCdpWithdraw
+  | CBadMeta _ => TText   (* unreachable: body never returns CBadMeta *)
+  end.
+
+Definition ctype_eqb (a b : ctype) : bool :=
+  match a, b with
+  | TText, TText | TParam, TParam | TUpgrade, TUpgrade | TCommitteeChange, TCommitteeChange
+  | TLendDeposit, TLendDeposit | TLendWithdraw, TLendWithdraw | TCdpRepay, TCdpRepay
+  | TCdpWithdraw, TCdpWithdraw | TCancelUpgrade, TCancelUpgrade | TPoolSpend, TPoolSpend => true
+  | _, _ => false
+  end.
+
+(* which content type a permission type can allow at all (for ParamsChangePermission:
+   subject to the field-level check) *)
+Definition type_allows (p : ptype) (c : ctype) : bool :=
+  match p, c with
+  | PTGod, _ => true
+  | PTText, TText => true
+  | PTParams, TParam => true
+  | PTUpgrade, TUpgrade => true
+  | PTCdpRepay, TCdpRepay => true
+  | PTCdpWithdraw, TCdpWithdraw => true
+  | PTLendWithdraw, TLendWithdraw => true
+  | _, _ => false
   end.
 
 (* BaseCommittee.HasPermissionsFor: the OR of all permissions *)
@@ -337,29 +413,67 @@ Fixpoint run_changes (sls : list slot) (ps : list json) (chs : list (pref * opti
       end
   end.
 
+(** ** proposal contents: ValidateBasic *)
+
+(* sdk.Coins.Validate on a non-empty list: every denomination valid, amounts
+   positive, denominations strictly ascending *)
+Fixpoint coins_sorted_from (low : string) (l : list coin) : bool :=
+  match l with
+  | [] => true
+  | (d, a) :: r => denom_ok (SText d) && String.ltb low d && (0 <? a) && coins_sorted_from d r
+  end.
+Definition coins_valid (l : list coin) : bool :=
+  match l with
+  | [] => true
+  | (d, a) :: r => denom_ok (SText d) && (0 <? a) && coins_sorted_from d r
+  end.
+Definition coins_zero (l : list coin) : bool := forallb (fun c => snd c =? 0) l.
+(* sdk.Coin.IsValid && !IsZero *)
+Definition coin_pos (c : coin) : bool := denom_ok (SText (fst c)) && (0 <=? snd c) && negb (snd c =? 0).
+
+(* the content's own ValidateBasic (title and description aside) *)
+Definition validate_basic (c : content) : bool :=
+  match c with
+  | CText => true
+  | CParam chs => negb (is_nil chs)
+  | CUpgrade h => 0 <? h                                  (* Plan.ValidateBasic *)
+  | CCommitteeChange | CCancelUpgrade | CPoolSpend => true
+  | CLendDeposit amt _ | CLendWithdraw amt _ => coins_valid amt && negb (coins_zero amt)
+  | CCdpRepay ct x _ | CCdpWithdraw ct x _ => negb (blank (SText ct)) && coin_pos x
+  | CBadMeta _ => false                                   (* govv1beta1.ValidateAbstract *)
+  end.
+
+(* committeeGovRouter of app.go: gov (text), community, params, upgrade *)
+Definition has_route (c : content) : bool :=
+  match body c with CCommitteeChange | CPoolSpend => false | _ => true end.
+
+(* types/codec.go RegisterInterfaces: the proposal types a MsgSubmitProposal can carry
+   (its Any is unpacked against PubProposal when the transaction is decoded).  The
+   committee's own change proposal and the community lend-deposit proposal are not among them. *)
+Definition decodable (c : content) : bool :=
+  match body c with CCommitteeChange | CLendDeposit _ _ => false | _ => true end.
+
 (* the routed handler at block height [ht]; CCommitteeChange has no route and is
    never run.  The upgrade handler (x/upgrade ScheduleUpgrade) refuses a plan
    whose height is below the current block height; its effect, the stored plan, is applied
-   by [enact_state] below. *)
+   by [enact_state] below.  The community handler dispatches on the proposal type
+   to one keeper call each, whose verdict is the ghost [ok]. *)
 Definition run_handler (sls : list slot) (ht : Z) (ps : list json) (c : content) : outcome (list json) unit :=
-  match c with
+  match body c with
   | CText => Ok ps tt
   | CParam chs => run_changes sls ps chs
   | CUpgrade h => if (h <=? 0) || (h <? ht) then Err else Ok ps tt
-  | CCommitteeChange => Err
+  | CCancelUpgrade => Ok ps tt                       (* ClearUpgradePlan *)
+  | CLendDeposit _ ok | CLendWithdraw _ ok | CCdpRepay _ _ ok | CCdpWithdraw _ _ ok =>
+      if ok then Ok ps tt else Err
+  | CCommitteeChange | CPoolSpend | CBadMeta _ => Err
   end.
 
 (* keeper.ValidatePubProposal: ValidateBasic, route exists, dry run on a cached
    context with panics recovered *)
 Definition validate_pub (sls : list slot) (ht : Z) (ps : list json) (c : content) : bool :=
-  match c with
-  | CText => true
-  | CParam chs =>
-      negb (is_nil chs)
-      && match run_changes sls ps chs with Ok _ _ => true | _ => false end
-  | CUpgrade h => negb ((h <=? 0) || (h <? ht))
-  | CCommitteeChange => false
-  end.
+  validate_basic c && has_route c
+  && match run_handler sls ht ps c with Ok _ _ => true | _ => false end.
 
 (** * Committees, proposals, votes *)
 
@@ -393,17 +507,35 @@ Record state := mkState {
   supply : Z;                  (* tally-denom supply *)
   now : Z;                     (* block time, seconds *)
   height : Z;                  (* block height *)
-  plan : Z                     (* height of the scheduled upgrade plan, 0 = none *)
+  plan : Z;                    (* height of the scheduled upgrade plan, 0 = none *)
+  enacted : list Z             (* how often each x/community handler ran for good:
+                                  lend deposit, lend withdraw, cdp repay, cdp withdraw *)
 }.
 
 Definition set_params (s : state) (ps : list json) : state :=
-  mkState ps (coms s) (props s) (votes s) (next_id s) (bals s) (supply s) (now s) (height s) (plan s).
+  mkState ps (coms s) (props s) (votes s) (next_id s) (bals s) (supply s) (now s) (height s) (plan s) (enacted s).
 Definition set_pv (s : state) (pr : list proposal) (vs : list vote) : state :=
-  mkState (params s) (coms s) pr vs (next_id s) (bals s) (supply s) (now s) (height s) (plan s).
+  mkState (params s) (coms s) pr vs (next_id s) (bals s) (supply s) (now s) (height s) (plan s) (enacted s).
+Definition set_coms (s : state) (cs : list committee) : state :=
+  mkState (params s) cs (props s) (votes s) (next_id s) (bals s) (supply s) (now s) (height s) (plan s) (enacted s).
+Definition set_bals (s : state) (bs : list Z) : state :=
+  mkState (params s) (coms s) (props s) (votes s) (next_id s) bs (supply s) (now s) (height s) (plan s) (enacted s).
+
+(* which of the four counters a content's enactment moves *)
+Definition community_idx (c : content) : option nat :=
+  match body c with
+  | CLendDeposit _ _ => Some 0%nat | CLendWithdraw _ _ => Some 1%nat
+  | CCdpRepay _ _ _ => Some 2%nat | CCdpWithdraw _ _ _ => Some 3%nat
+  | _ => None
+  end.
+Definition bump (c : content) (l : list Z) : list Z :=
+  match community_idx c with Some i => set_nth i (nth i l 0 + 1) l | None => l end.
+
 (* what a successful handler run leaves behind *)
 Definition enact_state (s : state) (c : content) (ps : list json) : state :=
   mkState ps (coms s) (props s) (votes s) (next_id s) (bals s) (supply s) (now s) (height s)
-          (match c with CUpgrade h => h | _ => plan s end).
+          (match body c with CUpgrade h => h | CCancelUpgrade => 0 | _ => plan s end)
+          (bump c (enacted s)).
 
 Definition find_com (s : state) (id : nat) : option committee :=
   find (fun c => Nat.eqb (c_id c) id) (coms s).
@@ -539,7 +671,9 @@ Inductive op :=
 | OBegin (t : Z)                                    (* next block at time t: committee BeginBlocker *)
 | OTransfer (a b : nat) (x : Z)                     (* bank send of the tally denom *)
 | OSetCommittee (c : committee)                     (* gov: CommitteeChangeProposal handler *)
-| ODeleteCommittee (id : nat).                      (* gov: CommitteeDeleteProposal handler *)
+| ODeleteCommittee (id : nat)                       (* gov: CommitteeDeleteProposal handler *)
+| OOracle (l : list (nat * bool)).                  (* ghost: what the community keeper calls of stored
+                                                       proposals will answer when they are run next *)
 
 Inductive out :=
 | OutNone
@@ -551,6 +685,21 @@ Definition close_all_of (s : state) (cid : nat) : state * list (nat * poutcome) 
   let mine := filter (fun p => Nat.eqb (p_com p) cid) (props s) in
   (fold_left (fun st p => close st (p_id p)) mine s, map (fun p => (p_id p, Failed)) mine).
 
+Definition set_ok (c : content) (b : bool) : content :=
+  match c with
+  | CLendDeposit a _ => CLendDeposit a b
+  | CLendWithdraw a _ => CLendWithdraw a b
+  | CCdpRepay t x _ => CCdpRepay t x b
+  | CCdpWithdraw t x _ => CCdpWithdraw t x b
+  | _ => c
+  end.
+
+Definition oracle_prop (l : list (nat * bool)) (p : proposal) : proposal :=
+  match find (fun e => Nat.eqb (fst e) (p_id p)) l with
+  | Some e => mkProp (p_id p) (p_com p) (p_deadline p) (set_ok (p_content p) (snd e))
+  | None => p
+  end.
+
 Definition step (sls : list slot) (s : state) (o : op) : outcome state out :=
   match o with
   | OAllows pm c =>
@@ -559,16 +708,19 @@ Definition step (sls : list slot) (s : state) (o : op) : outcome state out :=
       | Some b => Ok s (OutBool b)
       end
   | OApply c =>
-      match c with
-      | CCommitteeChange | CUpgrade _ => Err       (* the upgrade handler is not driven directly *)
+      match body c with
+      | CCommitteeChange | CPoolSpend | CUpgrade _ | CCancelUpgrade => Err   (* the upgrade handler is not driven directly *)
       | _ => if validate_pub sls (height s) (params s) c
              then match run_handler sls (height s) (params s) c with
-                  | Ok ps _ => Ok (set_params s ps) OutNone
+                  | Ok ps _ => Ok (enact_state s c ps) OutNone
                   | _ => Err
                   end
              else Err
       end
   | OSubmit proposer cid c =>
+      (* decoding of the transaction, then MsgSubmitProposal.ValidateBasic, before the message reaches the keeper *)
+      if negb (decodable c) then Err else
+      if negb (validate_basic c) then Err else
       match find_com s cid with
       | None => Err
       | Some cm =>
@@ -580,7 +732,7 @@ Definition step (sls : list slot) (s : state) (o : op) : outcome state out :=
               if negb (validate_pub sls (height s) (params s) c) then Err else
               let p := mkProp (next_id s) cid (now s + c_duration cm) c in
               Ok (mkState (params s) (coms s) (props s ++ [p]) (votes s) (S (next_id s))
-                          (bals s) (supply s) (now s) (height s) (plan s))
+                          (bals s) (supply s) (now s) (height s) (plan s) (enacted s))
                  (OutId (next_id s))
           end
       end
@@ -604,7 +756,7 @@ Definition step (sls : list slot) (s : state) (o : op) : outcome state out :=
       end
   | OBegin t =>
       if t <? now s then Err else
-      let s0 := mkState (params s) (coms s) (props s) (votes s) (next_id s) (bals s) (supply s) t (height s + 1) (plan s) in
+      let s0 := mkState (params s) (coms s) (props s) (votes s) (next_id s) (bals s) (supply s) t (height s + 1) (plan s) (enacted s) in
       match process_proposals sls s0 with
       | Ok s1 evs => Ok s1 (OutClosed evs)
       | _ => Panic
@@ -613,19 +765,17 @@ Definition step (sls : list slot) (s : state) (o : op) : outcome state out :=
       if (0 <? x) && (x <=? bal_of s a) && Nat.ltb a (List.length (bals s)) && Nat.ltb b (List.length (bals s)) then
         let b1 := set_nth a (bal_of s a - x) (bals s) in
         let b2 := set_nth b (nth b b1 0 + x) b1 in
-        Ok (mkState (params s) (coms s) (props s) (votes s) (next_id s) b2 (supply s) (now s) (height s) (plan s)) OutNone
+        Ok (set_bals s b2) OutNone
       else Err
   | OSetCommittee c =>
       if negb (committee_valid c) then Err else
       let '(s1, evs) := close_all_of s (c_id c) in
-      Ok (mkState (params s1) (com_put c (coms s1)) (props s1) (votes s1) (next_id s1)
-                  (bals s1) (supply s1) (now s1) (height s1) (plan s1))
-         (OutClosed evs)
+      Ok (set_coms s1 (com_put c (coms s1))) (OutClosed evs)
   | ODeleteCommittee id =>
       let '(s1, evs) := close_all_of s id in
-      Ok (mkState (params s1) (filter (fun c => negb (Nat.eqb (c_id c) id)) (coms s1)) (props s1)
-                  (votes s1) (next_id s1) (bals s1) (supply s1) (now s1) (height s1) (plan s1))
-         (OutClosed evs)
+      Ok (set_coms s1 (filter (fun c => negb (Nat.eqb (c_id c) id)) (coms s1))) (OutClosed evs)
+  | OOracle l =>
+      Ok (set_pv s (map (oracle_prop l) (props s)) (votes s)) OutNone
   end.
 
 Definition step' (sls : list slot) (s : state) (o : op) : state :=
@@ -703,8 +853,17 @@ Record obs := mkObs {
   o_votes : list (nat * nat * Z);       (* raw vote store: (proposal, voter, type), sorted *)
   o_next : nat;
   o_bals : list Z;
-  o_plan : Z                            (* height of the stored upgrade plan, 0 = none *)
+  o_plan : Z;                           (* height of the stored upgrade plan, 0 = none *)
+  o_ctypes : list nat;                  (* Go type of each stored proposal's content, in store order *)
+  o_enacted : list Z                    (* community keeper calls committed so far, by kind (from the keepers' events) *)
 }.
+
+Definition ctype_tag (t : ctype) : nat :=
+  match t with
+  | TText => 0 | TParam => 1 | TUpgrade => 2 | TCommitteeChange => 3
+  | TLendDeposit => 4 | TLendWithdraw => 5 | TCdpRepay => 6 | TCdpWithdraw => 7
+  | TCancelUpgrade => 8 | TPoolSpend => 9
+  end%nat.
 
 Definition field_eqb (a b : field) : bool :=
   String.eqb (f_name a) (f_name b) && Bool.eqb (f_omit a) (f_omit b)
@@ -743,7 +902,9 @@ Definition proj_ok (s : state) (sh : list json) (ob : obs) : bool :=
        (votes s) (o_votes ob)
   && Nat.eqb (next_id s) (o_next ob)
   && list_eqb Z.eqb (bals s) (o_bals ob)
-  && (plan s =? o_plan ob).
+  && (plan s =? o_plan ob)
+  && list_eqb Nat.eqb (map (fun p => ctype_tag (ctype_of (p_content p))) (props s)) (o_ctypes ob)
+  && list_eqb Z.eqb (enacted s) (o_enacted ob).
 
 Fixpoint first_mismatch (sls : list slot) (s : state) (sh : list json) (h : list (op * obs)) (i : nat) : option nat :=
   match h with
@@ -766,7 +927,7 @@ Record history := mkHist {
 
 Definition check_history (h : history) : option nat :=
   if list_eqb slot_eqb (h_slots h) std_slots && forallb (fun sl => schema_ok (sl_schema sl)) (h_slots h)
-     && inv_b (h_init h)
+     && inv_b (h_init h) && Nat.eqb (List.length (enacted (h_init h))) 4
   then first_mismatch (h_slots h) (h_init h) (params (h_init h)) (h_steps h) 0
   else Some 0%nat.
 
